@@ -73,6 +73,9 @@ func (m *Module) HandleDagazQuadSample(ctx context.Context, msg hwebsocket.Msg) 
 			WithTag("msg_type", msg.Type)
 	}
 
+	m.state.Mutex.Lock()
+	defer m.state.Mutex.Unlock()
+
 	for _, newQuad := range newQuadSample.Samples {
 		if !isValidQuad(newQuad) {
 			continue
@@ -97,6 +100,7 @@ func (m *Module) HandleDagazGetGroundPlane(ctx context.Context, respond hwebsock
 			WithTag("msg_type", msg.Type)
 	}
 
+	m.state.Mutex.Lock()
 	var quadHit *Quad
 	if req.Ray != nil && isValidPoint(req.Ray.From) && isValidPoint(req.Ray.To) {
 		ray := NewRayFromProtobuf(req.Ray)
@@ -112,6 +116,7 @@ func (m *Module) HandleDagazGetGroundPlane(ctx context.Context, respond hwebsock
 		}
 	}
 	sampleGroundQuad := quadHit.ToProtobuf()
+	m.state.Mutex.Unlock()
 
 	respond.Send(&dagazpb.DagazGetGroundPlaneResponse{
 		Type:      dagazpb.MsgType_MSG_TYPE_DAGAZ_GET_GROUND_PLANE_RESPONSE,
@@ -135,6 +140,7 @@ func (m *Module) HandleDagazGetRegion(ctx context.Context, respond hwebsocket.Re
 			WithTag("msg_type", msg.Type)
 	}
 
+	m.state.Mutex.Lock()
 	var regionQuads []*Quad
 	if isValidPoint(req.Min) && isValidPoint(req.Max) {
 		regionQuads = m.state.SpatialPartition.GetRegion(NewVector3fFromProtobuf(req.Min), NewVector3fFromProtobuf(req.Max))
@@ -143,6 +149,7 @@ func (m *Module) HandleDagazGetRegion(ctx context.Context, respond hwebsocket.Re
 	for i := 0; i < len(regionQuads); i++ {
 		regionQuadsProtobuf[i] = regionQuads[i].ToProtobuf()
 	}
+	m.state.Mutex.Unlock()
 
 	respond.Send(&dagazpb.DagazGetRegionResponse{
 		Type:      dagazpb.MsgType_MSG_TYPE_DAGAZ_GET_REGION_RESPONSE,
@@ -166,7 +173,9 @@ func (m *Module) HandleDagazGetDebugInfo(ctx context.Context, respond hwebsocket
 			WithTag("msg_type", msg.Type)
 	}
 
+	m.state.Mutex.Lock()
 	debugInfo := m.state.SpatialPartition.GetDebugInfo()
+	m.state.Mutex.Unlock()
 
 	respond.Send(&dagazpb.DagazGetDebugInfoResponse{
 		Type:           dagazpb.MsgType_MSG_TYPE_DAGAZ_GET_DEBUG_INFO_RESPONSE,
